@@ -643,7 +643,8 @@ fn variants_case(ctx: &mut Ctx, t: Typ, h: &Headers, ck: bool, d: &Data, flags_l
             let cuts_arg = cuts.iter().map(|c| c.to_string()).collect::<Vec<_>>().join(",");
             let req = format!("rt {base} cuts={cuts_arg}");
             let chunks = cut_at(&text, &cuts);
-            let reqs: Vec<usize> = match k % 4 { 0 => vec![], 1 => vec![1, 7, 64, 1000], 2 => vec![0, 3, 0, 0, 100], _ => vec![0, 8192] };
+            // (constant one- and two-octet buffers too: less room than one base64 quantum decodes to)
+            let reqs: Vec<usize> = match k % 7 { 0 => vec![], 1 => vec![1, 7, 64, 1000], 2 => vec![0, 3, 0, 0, 100], 3 => vec![1], 4 => vec![2], 5 => vec![2, 1, 0], _ => vec![0, 8192] };
             let (ans2, p2) = real_dearmor(&chunks, false, &reqs);
             ctx.case(req.clone(), ans2.clone());
             ctx.stat(&format!("cuts:class={cutclass}"));
